@@ -379,37 +379,59 @@ func init() {
 
 // c02Chains: `softOnly` is used by C08 (soft-delete model, leading Or allowed)
 func c02Chains(r *Result, rng *rand.Rand, n int, softOnly bool) {
-	for i := 0; i < n && !expired(); i++ {
+	type job struct {
+		seed int64
+		soft bool
+	}
+	var jobs []job
+	for i := 0; i < n; i++ {
 		seed := rng.Int63()
-		soft := softOnly || rng.Intn(4) == 0
-		c02One(r, seed, soft)
+		jobs = append(jobs, job{seed, softOnly || rng.Intn(4) == 0})
+	}
+	// the Lean model is asked for a whole batch of chains in ONE driver run (a process start per chain dominated the run time)
+	for lo := 0; lo < len(jobs) && !expired(); lo += 250 {
+		hi := lo + 250
+		if hi > len(jobs) {
+			hi = len(jobs)
+		}
+		var ask [][]interface{}
+		for _, j := range jobs[lo:hi] {
+			g := c02Gen(j.seed, j.soft, r.Property)
+			ask = append(ask, g.ask)
+		}
+		if res, err := AskLean(ask); err == nil {
+			for i, j := range jobs[lo:hi] {
+				c02Cache[fmt.Sprint(r.Property, j.seed, j.soft)] = res[i]
+			}
+		}
+		for _, j := range jobs[lo:hi] {
+			if expired() {
+				break
+			}
+			c02One(r, j.seed, j.soft)
+			delete(c02Cache, fmt.Sprint(r.Property, j.seed, j.soft))
+		}
 	}
 }
 
-// c02One generates and judges one chain from its own PRNG (so a stored seed replays it exactly)
-func c02One(r *Result, seedMark int64, soft bool) {
-	prop := r.Property
+var c02Cache = map[string]json.RawMessage{}
+
+type c02Generated struct {
+	rng    *rand.Rand
+	w      *wWorld
+	rows   []wRow
+	ch     *wChain
+	ask    []interface{}
+}
+
+// c02Gen: everything about one case that is determined by its seed, and the question put to the Lean model
+func c02Gen(seedMark int64, soft bool, prop string) *c02Generated {
 	rng := rand.New(rand.NewSource(seedMark))
 	w := newWorld()
 	rows := genRows(rng, 6+rng.Intn(4), soft)
 	cfg := chainGenCfg{exGenCfg: exGenCfg{allowWeird: rng.Intn(10) == 0, allowMixed: rng.Intn(10) == 0, table: tableOf(soft)},
 		soft: soft, allowEmpty: true, leadingOr: prop == "C08"}
 	ch := genChainN(rng, w, 1, 1+rng.Intn(4), cfg)
-	db, _, sqlDB := openW(rows, soft, nil)
-	defer sqlDB.Close()
-	rowStr := make([]string, len(rows))
-	for i, x := range rows {
-		rowStr[i] = x.String()
-	}
-	suite := "rows"
-	mk := func(fin string, pk int) c02Case {
-		return c02Case{Seed: seedMark, Soft: soft, Rows: rowStr, Chain: ch.desc(), Fin: fin, PK: pk}
-	}
-	_ = mk
-
-	// --- correspondence: WHERE text of the real DryRun statement vs the Lean model; SQLite's selection vs Lean sqlEval
-	dry := ch.apply(db.Session(&gorm.Session{DryRun: true})).Find(reflectSlice(soft))
-	realWhere := whereOf(dry.Statement.SQL.String())
 	var filter interface{}
 	if soft {
 		filter = map[string]interface{}{"col": "`w_softs`.`deleted_at`", "kind": "eq", "val": "nil", "id": w.id(wPred{Col: "deleted", Op: "null"})}
@@ -427,8 +449,37 @@ func c02One(r *Result, seedMark int64, soft bool) {
 		}
 		envs[i] = e
 	}
+	return &c02Generated{rng: rng, w: w, rows: rows, ch: ch, ask: []interface{}{"chain.render", ch.json(), []interface{}{false, filter}, envs}}
+}
+
+// c02One generates and judges one chain from its own PRNG (so a stored seed replays it exactly)
+func c02One(r *Result, seedMark int64, soft bool) {
+	prop := r.Property
+	g := c02Gen(seedMark, soft, prop)
+	rng, w, rows, ch := g.rng, g.w, g.rows, g.ch
+	db, _, sqlDB := openW(rows, soft, nil)
+	defer sqlDB.Close()
+	rowStr := make([]string, len(rows))
+	for i, x := range rows {
+		rowStr[i] = x.String()
+	}
+	suite := "rows"
+	mk := func(fin string, pk int) c02Case {
+		return c02Case{Seed: seedMark, Soft: soft, Rows: rowStr, Chain: ch.desc(), Fin: fin, PK: pk}
+	}
+	_ = mk
+
+	// --- correspondence: WHERE text of the real DryRun statement vs the Lean model; SQLite's selection vs Lean sqlEval
+	dry := ch.apply(db.Session(&gorm.Session{DryRun: true})).Find(reflectSlice(soft))
+	realWhere := whereOf(dry.Statement.SQL.String())
 	var flags c02Flags
-	res, err := AskLean([][]interface{}{{"chain.render", ch.json(), []interface{}{false, filter}, envs}})
+	var res []json.RawMessage
+	var err error
+	if raw, ok := c02Cache[fmt.Sprint(prop, seedMark, soft)]; ok {
+		res = []json.RawMessage{raw}
+	} else {
+		res, err = AskLean([][]interface{}{g.ask})
+	}
 	realIDs, ferr := c02RunFinisher(db, ch, soft, "find", 0, rows)
 	if err != nil {
 		r.Violate(Violation{Kind: "correspondence", Suite: "chain.render", Input: ch.desc(), Note: err.Error()})
